@@ -10,6 +10,18 @@ KS_NOTE = ("Trusted: TLC, the transcription of the Redis command reference in sp
            "(memdb/verif_inspect.go). B1 is exhaustive only within the instance bounds; B2 is sampled.")
 
 CHECKS = {
+    "C01": dict(cat="model_checking", ref="§C01", technique="TLA+ reference model (KsString.tla, KsKeys.tla, Glob.tla) + TLC; B1 edge tours (case-twin keys, CR LF / empty values, 64-bit and exact-decimal arithmetic instance); B2 TLC trace validation of random string and key programmes",
+                text="Every transition of two bounded instances (string/generic-key commands over keys k/K/l with values incl. empty and CR LF and every option combination; a numeric instance with int64 extremes and exact decimals) is replayed on the real executors with comparison of reply and stored state; random programmes with binary payloads are validated by TLC against the same spec.",
+                note=KS_NOTE),
+    "C04": dict(cat="fault_enumeration", ref="§C04", technique="input space defined in TLA+ (Robust.tla token alphabet and mutation operators, MC_* command sets, all printed by TLC); bounded-exhaustive execution on the real code under a server-life monitor; every anomaly reproduced on the real binary over TCP",
+                text="Every registered command name x every argument vector up to length 2 (quick) / 3 (thorough) over a 50-token adversarial alphabet, plus every single-point mutation of ~1250 valid commands, is executed against a keyspace holding one key of each type; after each input: no panic, reply in time, every lock stripe free, probes answer. Crashes are confirmed by process exit / dead second connection on the real server binary.",
+                note="Trusted: the harness monitor (recover, watchdog, TryLock on every stripe through the verif-tagged inspection file). The spec supplies the input space; the decision is enumeration plus observation. Legitimately blocking inputs are skipped and counted."),
+    "C17": dict(cat="model_checking", ref="§C17", technique="TLA+ Match(p, s) (Glob.tla) evaluated by TLC for every pattern up to length 5/6 over the metacharacter alphabet x 85 subjects; every table row replayed on util.PattenMatch and on the KEYS command",
+                text="The documented glob grammar is a total three-valued function in TLA+; TLC evaluates it exhaustively within the bound (66 430 patterns x 85 subjects in the quick tier) and checks meta-properties of the grammar; the real matcher and KEYS (on a keyspace that also holds deleted and expired keys) must agree with every settled entry and terminate without panic on the unsettled ones.",
+                note="Trusted: the transcription of the grammar in Glob.tla; constructs the grammar leaves open are only checked for termination. Exhaustive up to the stated lengths, nothing beyond."),
+    "C20": dict(cat="model_checking", ref="§C20", technique="TLA+ Select.tla (Isolation, SelectionIsPrivate, RejectKeeps checked by TLC); every transition replayed on one real Manager shared by Manager.Handle connections; model walks replayed over TCP on the real binary",
+                text="All interleavings of two connections issuing SELECT (valid, out of range, negative, non-numeric, empty, wrong arity, lexical corners) and data commands over 1, 2 and 16 databases are model-checked and each transition is replayed on the real connection handler, comparing replies and the contents of every database.",
+                note="Trusted: TLC, Select.tla, the independent RESP codecs. Two connections in B1; 16 databases label-sampled in the quick tier."),
     "C09": dict(cat="model_checking", ref="§C09", technique="TLA+ reference model (KsList.tla) checked by TLC; every transition of the bounded graph replayed on the real executors (B1) with structural dump comparison; random programmes trace-validated by TLC (B2)",
                 text="TLC enumerates the bounded list keyspace (2 lists + a string key, elements {a,b}, all index/count/option arguments incl. beyond-either-end) and checks the model invariants; every one of its transitions is replayed on the real code through Manager.ExecCommand and reply + internal list structure (forward walk = backward walk = Len) are compared; seeded random programmes with binary payloads are validated line by line against the same spec by TLC.",
                 note=KS_NOTE),
